@@ -164,3 +164,30 @@ Proof. split; vm_compute; reflexivity. Qed.
 
 Example ex_fair_share_nonvacuous : fair_share 33 10 20 16 /\ portion 33 10 20 = 16.
 Proof. split; [unfold fair_share, PREC; lia | vm_compute; reflexivity]. Qed.
+
+(** parameter edits in the middle of the slash window of [q2] (2 periods; validator 2 misses both): unedited the
+    window end jails validator 2 and burns 10 %; MinValidPerWindow edited to 0 before the window end — nobody is
+    touched; SlashFraction edited to 0 — jailed, nothing burned *)
+Definition q2_mv0 : oparams :=
+  mkOP (mkParams 1 500000000000000000 1 900 20000000000000000) 100000000000000000 2 0.
+Definition q2_sf0 : oparams :=
+  mkOP (mkParams 1 500000000000000000 1 900 20000000000000000) 0 2 690000000000000000.
+Definition last_post (l : list (oparams * op * sobs * list avote)) : list (nat * bool * Z) :=
+  so_post (snd (fst (last l (q2, OOther, panic_obs, [])))).
+Definition ops_edit (q' : oparams) : list (oparams * op) :=
+  [(q2, OEnd (st3 bad_votes) svs3 2); (q', OOther); (q', OEnd (st3 bad_votes) svs3 3)].
+
+Example ex_param_edit_nonvacuous :
+  Forall (fun x => wf_op (snd x)) (ops_edit q2_mv0) /\
+  last_post (run_obs12v true (mkHst12 (mkOS [] [] []) []) (ops_edit q2)) =
+    [(0%nat, false, 10000000); (1%nat, false, 10000000); (2%nat, true, 4500000)] /\
+  last_post (run_obs12v true (mkHst12 (mkOS [] [] []) []) (ops_edit q2_mv0)) =
+    [(0%nat, false, 10000000); (1%nat, false, 10000000); (2%nat, false, 5000000)] /\
+  last_post (run_obs12v true (mkHst12 (mkOS [] [] []) []) (ops_edit q2_sf0)) =
+    [(0%nat, false, 10000000); (1%nat, false, 10000000); (2%nat, true, 5000000)].
+Proof.
+  split; [|split; [|split]]; try (vm_compute; reflexivity).
+  pose proof ex_ops_wf as H. unfold ops_ex in H.
+  inversion H as [|? ? _ H1]; subst. inversion H1 as [|? ? Hb _]; subst.
+  unfold ops_edit. constructor; [exact Hb|]. constructor; [exact I|]. constructor; [exact Hb|]. constructor.
+Qed.
